@@ -22,6 +22,7 @@ type Env struct {
 	pkgPath string
 	fn      *ssa.Function   // for locals (loop invariants)
 	atBlock *ssa.BasicBlock // loop head, for local resolution
+	atPos   token.Pos       // source position of the evaluation point (call site): locals resolve by Go's scoping rules there
 	inOld   bool
 	bound   map[string]bool
 	localsAfterNames bool
@@ -345,6 +346,26 @@ func (e *Env) local(name string) *Value {
 	x := e.x
 	var best, undefined, executed *ssa.Alloc
 	fr := e.st.frames[0]
+	if e.atPos.IsValid() && e.fn.Pkg != nil && e.fn.Pkg.Pkg != nil {
+		// Go's own scoping at the evaluation point decides between several locals of one name (a shadowing
+		// `if err := ...` is out of scope after its statement although its block dominates what follows)
+		if sc := e.fn.Pkg.Pkg.Scope().Innermost(e.atPos); sc != nil {
+			if _, obj := sc.LookupParent(name, e.atPos); obj != nil {
+				if v, ok := obj.(*types.Var); ok {
+					for _, b := range e.fn.Blocks {
+						for _, ins := range b.Instrs {
+							if a, ok := ins.(*ssa.Alloc); ok && a.Comment == name && a.Pos() == v.Pos() {
+								if pv, defined := fr.regs[a]; defined && pv != nil && pv.K == KPtr {
+									et := a.Type().Underlying().(*types.Pointer).Elem()
+									return x.load(e.st, pv.P, et)
+								}
+							}
+						}
+					}
+				}
+			}
+		}
+	}
 	for _, b := range e.fn.Blocks {
 		for _, ins := range b.Instrs {
 			a, ok := ins.(*ssa.Alloc)
